@@ -57,6 +57,22 @@ CmpStr == {CaseOf("C01/cmpstr/" \o o \o "/" \o s \o "," \o u, <<Def1("s", StrL(s
            : o \in {"==", "!="}, s \in Strs, u \in Strs}
 CmpBool == {CaseOf("C01/cmpbool/" \o o \o "/" \o BStr(p) \o BStr(q), <<Def1("p", BoolL(p)), PrintS(<<CmpE(o, Var("p"), BoolL(q)), CmpE(o, BoolL(p), BoolL(q))>>)>>)
             : o \in {"==", "!="}, p \in Bools, q \in Bools}
+\* negation over every kind of operand: a grouped comparison (every operator x smaller / equal / greater, literals and variables), nested groups,
+\* double negation, grouped string and bool comparisons; printed, as an if condition and as a loop condition
+Lbl(s) == Print1(StrL(s))
+NotForms == {"lit", "var", "grp2", "notnot", "assigned"}
+NotExpr(f, o, a, b) == CASE f = "lit" -> Not(Grp(CmpE(o, IntL(a), IntL(b)))) [] f = "var" -> Not(Grp(CmpE(o, Var("a"), Var("b"))))
+                         [] f = "grp2" -> Not(Grp(Grp(CmpE(o, Var("a"), IntL(b))))) [] f = "notnot" -> Not(Not(Grp(CmpE(o, Var("a"), Var("b")))))
+                         [] f = "assigned" -> Not(Var("c"))
+NotCmp == {CaseOf("C01/notcmp/" \o f \o "/" \o o \o "/" \o t[1] \o "," \o t[2],
+                  <<Def1("a", IntL(t[1])), Def1("b", IntL(t[2])), Def1("c", CmpE(o, Var("a"), Var("b"))), Print1(NotExpr(f, o, t[1], t[2])),
+                    IfElse(NotExpr(f, o, t[1], t[2]), <<Lbl("then")>>, <<Lbl("else")>>),
+                    Def1("n", NatLit(0)), For3(Def1("i", IntL(t[1])), Lgc("&&", NotExpr(f, o, t[1], t[2]), CmpE("<", Var("n"), NatLit(3))), Inc("n"), <<Inc("a"), Print1(Var("a"))>>)>>)
+           : f \in NotForms, o \in CmpOps, t \in {<<"1", "2">>, <<"2", "1">>, <<"2", "2">>}}
+NotOther == {CaseOf("C01/notother/" \o o \o "/" \o s \o "," \o u, <<Def1("s", StrL(s)), PrintS(<<Not(Grp(CmpE(o, Var("s"), StrL(u)))), Not(Grp(CmpE(o, StrL(s), StrL(u))))>>)>>)
+             : o \in {"==", "!="}, s \in {"", "a", "a b"}, u \in {"", "a", "a b"}}
+            \cup {CaseOf("C01/notother/" \o o \o "/" \o BStr(p) \o BStr(q), <<Def1("p", BoolL(p)), PrintS(<<Not(Grp(CmpE(o, Var("p"), BoolL(q)))), Not(Grp(Lgc("&&", Not(Var("p")), BoolL(q)))), Not(BoolL(q))>>)>>)
+                  : o \in {"==", "!="}, p \in Bools, q \in Bools}
 \* mixed precedence: comparison operands are arithmetic, logic operands are comparisons:  a + b < c && p || q == r ...
 Mixed == {CaseOf("C01/mixed/" \o ao \o co \o lo \o "/" \o t[1] \o "," \o t[2] \o "," \o t[3] \o "/" \o BStr(p),
                  <<Print1(Lgc(lo, CmpE(co, Bin(ao, IntL(t[1]), IntL(t[2])), IntL(t[3])), BoolL(p))),
@@ -67,7 +83,6 @@ StrConcat == {CaseOf("C01/concat/" \o s \o "," \o u, <<Def1("s", StrL(s)), Def1(
 
 \* (3) control flow: every nesting of constructs.  A construct is a function from its nesting level d (for fresh
 \* counter names) and an inner block to a block.
-Lbl(s) == Print1(StrL(s))
 Ctr(d) == "n" \o ToString(d)
 Idx(d) == "i" \o ToString(d)
 PrintCtr(d) == PrintS(<<StrL(Ctr(d)), Var(Ctr(d))>>)
@@ -143,7 +158,7 @@ PrintCases == {CaseOf("C01/print/0", <<PrintS(<<>>), Lbl("x")>>),
                CaseOf("C01/print/mixed", <<Def1("a", IntL("3")), Def1("b", BoolL(FALSE)), Def1("c", StrL("two words")), PrintS(<<Var("c"), Var("b"), Var("a"), StrL(""), Var("c")>>)>>),
                CaseOf("C01/print/nil", <<VarDef(<<"e">>, "error", <<>>), PrintS(<<CmpE("==", Var("e"), Nil), CmpE("!=", Var("e"), Nil)>>), Asg1("e", StrL("bad")), PrintS(<<Var("e"), CmpE("!=", Var("e"), Nil)>>)>>)}
 
-All == Arith1 \cup Arith2 \cup ArithVar \cup Arith3 \cup Logic2 \cup LogicNot \cup CmpInt \cup CmpStr \cup CmpBool \cup Mixed \cup StrConcat
+All == NotCmp \cup NotOther \cup Arith1 \cup Arith2 \cup ArithVar \cup Arith3 \cup Logic2 \cup LogicNot \cup CmpInt \cup CmpStr \cup CmpBool \cup Mixed \cup StrConcat
        \cup Nest1 \cup Nest2 \cup Seq2 \cup Nest3 \cup DefCases \cup CompoundCases \cup IncDecCases \cup PanicAt \cup ItoaCases \cup PrintCases
 ASSUME ndJsonSerialize("fam.ndjson", SetToSeq(All))
 =============================================================================
